@@ -89,9 +89,17 @@ def run_scripted(sid, ctx):
 
     rng = harness.rng_for(ctx.seed, ID, "s", sid)
     cfg = gen_config(rng)
-    N, J = cfg["N"], cfg["J"]
+    J = cfg["J"]
+    short = sid % 5 == 4
+    if short:
+        # "short input" family: the input ends while the caller is still in its start-up phase, so the
+        # callbacks' end-of-input bookkeeping overlaps the caller's; only the caller is slowed down
+        cfg["N"] = rng.choice([1, 1, 2, J, J + 1])
+        cfg["b"] = rng.choice([1, 1, 2])
+        cfg["pd"] = rng.choice(["2*n_jobs", "n_jobs", 1, 2])
+    N = cfg["N"]
     ncb = rng.choice([1, 2, 3])
-    sync_p = rng.choice([0.0, 0.0, 0.3, 1.0])
+    sync_p = rng.choice([0.0, 0.0, 0.3, 1.0]) if not short else rng.choice([0.0, 0.0, 0.3])
     tag = f"s{sid}"
     trace = Trace()
     srng = harness.rng_for(ctx.seed, ID, "sync", sid)
@@ -100,6 +108,12 @@ def run_scripted(sid, ctx):
     inj = _S["inj"]
     inj.reseed(ctx.seed * 7919 + sid, p_yield=rng.choice([0.0, 0.02, 0.05]), p_sleep=rng.choice([0.0, 0.005, 0.01]))
     inj.p_instr = rng.choice([0.0, 0.1, 0.3])   # instruction-level pre-emption in the few functions that update shared flags without the lock
+    inj.instr_p = {}
+    if short:
+        import joblib.parallel as jp
+        inj.reseed(ctx.seed * 7919 + sid, p_yield=0.0, p_sleep=0.0)
+        inj.p_instr = 0.0
+        inj.instr_p = {jp.Parallel._start.__code__: 0.5}
     y0 = inj.yields
     i0 = inj.instr_yields
     with LOGLOCK:
